@@ -42,3 +42,74 @@ fn h_obm_cmp() {
         assert!(a == b);
     }
 }
+
+// ---------------------------------------------------------------------------
+// BOUNDED stand-in for the whole IpTable API (kind=witness: never run by Kani, never counted as proved).  It is run on the
+// real code only when the Verus unit `iptable` cannot ingest a changed function (the unit is then UNDECIDED): 3000
+// deterministic pseudo-random histories of 30 add / add_direct / remove / remove_direct / get_recipient operations over
+// nets drawn from a small address space (prefix lengths 0, 8, 16, 24..=32, nested and overlapping on purpose), compared
+// after every step with a naive model (association list, longest prefix by linear scan).
+// ---------------------------------------------------------------------------
+#[cfg(vx_replay)]
+struct VxLcg(u64);
+#[cfg(vx_replay)]
+impl VxLcg {
+    fn next(&mut self, n: usize) -> usize {
+        self.0 = self.0.wrapping_mul(6364136223846793005).wrapping_add(1442695040888963407);
+        ((self.0 >> 33) as usize) % n.max(1)
+    }
+}
+
+//# id=witness.table_matches_the_naive_longest_prefix_model props=C09,C16 kind=witness pair=iptable.IpTable.get_recipient.longest_prefix_match,iptable.IpTable.get_recipient.safety,iptable.IpTable.add.safety,iptable.IpTable.remove.safety,iptable.IpTable.add_direct.safety,iptable.IpTable.remove_direct.safety
+#[cfg(vx_replay)]
+#[test]
+fn h_w_iptable_model() {
+    const LENS: [u32; 12] = [0, 8, 16, 24, 25, 26, 27, 28, 29, 30, 31, 32];
+    for seed in 0..3000u64 {
+        let mut g = VxLcg(seed.wrapping_mul(0x9e3779b97f4a7c15) ^ 0x2545f4914f6cdd1d);
+        let mut t: IpTable<u32> = IpTable::new();
+        let mut model: Vec<(u32, u32, u32)> = Vec::new(); // (network id, prefix length, value)
+        let addr = |g: &mut VxLcg| -> u32 { 0x0a00_0000 | ((g.next(2) as u32) << 16) | ((g.next(2) as u32) << 8) | (g.next(8) as u32) | if g.next(8) == 0 { 0xc0 } else { 0 } };
+        for step in 0..30usize {
+            let a = addr(&mut g);
+            let len = LENS[g.next(LENS.len())];
+            let mask: u32 = if len == 0 { 0 } else { u32::MAX << (32 - len) };
+            let id = a & mask;
+            let net = Ipv4Net::new(Ipv4Address::from(a), Ipv4Mask::from_bitcount(len));
+            match g.next(6) {
+                0 | 1 => {
+                    let v = (seed as u32) * 100 + step as u32;
+                    let prev = t.add(net, v);
+                    let old = model.iter().position(|e| e.0 == id && e.1 == len);
+                    assert_eq!(prev, old.map(|k| model[k].2), "add returns the replaced value (seed {seed}, step {step})");
+                    match old { Some(k) => model[k].2 = v, None => model.push((id, len, v)) }
+                }
+                2 => {
+                    let v = (seed as u32) * 100 + step as u32;
+                    t.add_direct(Ipv4Address::from(a), v);
+                    match model.iter().position(|e| e.0 == a && e.1 == 32) { Some(k) => model[k].2 = v, None => model.push((a, 32, v)) }
+                }
+                3 => {
+                    let prev = t.remove(net);
+                    let old = model.iter().position(|e| e.0 == id && e.1 == len);
+                    assert_eq!(prev, old.map(|k| model[k].2), "remove returns the removed value (seed {seed}, step {step})");
+                    if let Some(k) = old { model.remove(k); }
+                }
+                4 => {
+                    let prev = t.remove_direct(Ipv4Address::from(a));
+                    let old = model.iter().position(|e| e.0 == a && e.1 == 32);
+                    assert_eq!(prev, old.map(|k| model[k].2), "remove_direct returns the removed value (seed {seed}, step {step})");
+                    if let Some(k) = old { model.remove(k); }
+                }
+                _ => {}
+            }
+            // every lookup in the neighbourhood agrees with the longest matching prefix of the model
+            for _ in 0..6 {
+                let q = addr(&mut g);
+                let want = model.iter().filter(|e| (if e.1 == 0 { 0 } else { q & (u32::MAX << (32 - e.1)) }) == e.0).max_by_key(|e| e.1).map(|e| e.2);
+                assert_eq!(t.get_recipient(Ipv4Address::from(q)), want, "lookup of {q:#x} (seed {seed}, step {step})");
+            }
+            assert_eq!(t.iter().count(), model.len(), "number of routes (seed {seed}, step {step})");
+        }
+    }
+}
